@@ -532,6 +532,23 @@ theorem end_deleverage_spec {pre : PreCache} {ps : List Pos} {seized repaid : In
   obtain ⟨cm, _, hcm, _, hw, _⟩ := end_receivership_spec h
   exact ⟨cm, hcm, hw⟩
 
+/-- the snapshot a forced deleverage takes (no health condition): the maintenance and equity valuation of that moment -/
+theorem start_deleverage_snapshot {ps : List Pos} {c : PreCache} (h : startReceivership ps true = .ok c) :
+    ∃ cm ce, components ps .maint = .ok cm ∧ components ps .equity = .ok ce ∧
+      c = { aMaint := cm.assets, lMaint := cm.liabs, aEq := ce.assets, lEq := ce.liabs } := by
+  unfold startReceivership at h
+  obtain ⟨⟨hh, a, l⟩, hpl, h⟩ := Res.bind_ok h
+  obtain ⟨ce, hce, h⟩ := Res.bind_ok h
+  injection h with h
+  unfold preLiquidation at hpl
+  obtain ⟨cm, hcm, hpl⟩ := Res.bind_ok hpl
+  obtain ⟨h2, hh2, hpl⟩ := Res.bind_ok hpl
+  split at hpl
+  · rename_i hc; simp at hc
+  injection hpl with hpl; injection hpl with _ hpl; injection hpl with ha hl
+  refine ⟨cm, ce, hcm, hce, ?_⟩
+  subst ha; subst hl; exact h.symm
+
 /-- (non-vacuity) a full close-out of a $10 account that repays $10 passes; the same seizure for $9 repaid is refused
     for its premium; under five dollars of assets the premium is not tested -/
 example : endLiquidation ⟨5 * ONE, 10 * ONE, 10 * ONE, 10 * ONE⟩ [] 0 = .ok (10 * ONE, 10 * ONE) := by decide
@@ -575,8 +592,8 @@ theorem world_receivership_admits_only_withdraw_and_repay (c : Ctx) (hr : flag c
 
 The transactions are lists of whole instructions (withdraw, repay, … with the account checks, gates, accrual, books and risk
 engine of `Mfi.World`), flash-loan starts / ends and liquidation starts / ends, executed atomically; the health valuations are
-the risk-engine model's own. (`start_deleverage` / `end_deleverage` are not in this machine: their function-level model and the
-raw transaction shapes above cover them.) -/
+the risk-engine model's own. The risk admin's forced deleverage (`start_deleverage` / `end_deleverage`) is in the machine as
+the second kind of bracket. -/
 
 /-- **world_start_liquidation_spec**: `start_liquidation` goes through only with the account's own liquidation record, on an
     account not already in receivership (nor in a flash loan, nor disabled: regenerated table), when `start_receivership` accepts
@@ -652,6 +669,55 @@ theorem world_tx_liquidation_cannot_worsen_health {w w' : WState} {tx : List TOp
   refine ⟨p1, ?_⟩
   rw [hsz, hrp] at p2
   exact p2
+
+/-! #### the forced deleverage: the same bracket, for the risk admin alone -/
+
+/-- **world_start_deleverage_spec**: `start_deleverage` goes through only signed by the GROUP'S RISK ADMIN, with the account's
+    own record and group, on an account not already in receivership (nor in a flash loan, nor disabled), when the transaction has
+    the deleverage bracket shape; no health condition; it records the risk admin as receiver, snapshots the valuation and sets
+    both markers -/
+theorem world_start_deleverage_spec {c : RCtx} {shape : Res Unit} {o : StartLiqOut} (h : startDeleverage c shape = .ok o) :
+    (c.recordOk = true ∧ c.a.group = c.g.key ∧ c.g.riskAdmin = c.receiver) ∧ inRecv c.a = false ∧ shape = .ok () ∧
+    (∃ ps, c.portfolio = .ok ps ∧ Mfi.Risk.startReceivership ps true = .ok o.cache) ∧
+    o.flags = (c.a.flags ||| ACCOUNT_IN_DELEVERAGE.toNat) ||| ACCOUNT_IN_RECEIVERSHIP.toNat ∧ o.receiver = c.receiver :=
+  startDeleverage_ok h
+
+/-- the shape a deleverage start accepts: it is the FIRST instruction and the only such start, the LAST instruction is an
+    end_deleverage, nothing but these two, withdraw and repay appears (no start / end of a liquidation either) -/
+theorem world_deleverage_shape {tx : List TOp} {cur : Nat} (h : delevShape tx cur = .ok ()) :
+    ∃ t0 rest, tx = t0 :: rest ∧ isStartDelev t0 = true ∧ rest.any isStartDelev = false ∧
+      ((tx.getLast?).map isEndDelev).getD false = true ∧ tx.all delevAllowed = true ∧ cur < tx.length - 1 :=
+  delevShape_ok h
+
+/-- **world_end_deleverage_spec**: `end_deleverage` goes through only signed by the group's risk admin, who is the receiver the
+    account's own record names, on an account IN receivership, at top level, when the maintenance health is no worse than the
+    snapshot; it clears the receivership marker -/
+theorem world_end_deleverage_spec {c : RCtx} {stack : Nat} {o : EndLiqOut} (h : endDeleverage c stack = .ok o) :
+    (c.recordOk = true ∧ c.a.group = c.g.key ∧ c.g.riskAdmin = c.receiver) ∧ inRecv c.a = true ∧ c.a.recReceiver = c.receiver ∧ stack = 1 ∧
+    (∃ ps, c.portfolio = .ok ps ∧ Mfi.Risk.endDeleverage c.a.recCache ps = .ok (o.seized, o.repaid)) ∧
+    hasFlag o.flags ACCOUNT_IN_RECEIVERSHIP = false := by
+  obtain ⟨h1, h2, h3, h4, h5, h6⟩ := endDeleverage_ok h
+  exact ⟨h1, h2, h3, h4, h5, by rw [h6]; exact recv_clear _⟩
+
+/-- **world_tx_deleverage_cannot_worsen_health**: a committed transaction that opens with `start_deleverage` of account `a0`
+    signed by `r`: `r` is the group's risk admin and the account belongs to this group; the transaction's last instruction is the
+    `end_deleverage` of the same account, signed by `r`; and on the state the bracket LEFT — whatever the withdrawals and
+    repayments in between did — the account's maintenance health is no worse than on the state the transaction found -/
+theorem world_tx_deleverage_cannot_worsen_health {w w' : WState} {tx : List TOp} (h : w.runTx tx = some w')
+    (h0 : ∀ (k : Nat) (a : AcctV), w.accts[k]? = some a → inRecv a = false)
+    {a0 r : Nat} {ok : Bool} (hs : tx[0]? = some (.startDelev a0 r ok)) :
+    ∃ (a : AcctV) (ps0 : List Mfi.Risk.Pos) (m0 : Mfi.Risk.Comps), w.accts[a0]? = some a ∧ w.g.riskAdmin = r ∧ a.group = w.g.key ∧
+      (w.rctx a ok r true 0).portfolio = .ok ps0 ∧ Mfi.Risk.components ps0 .maint = .ok m0 ∧
+      ∃ (signer : Nat) (rok : Bool), tx[tx.length - 1]? = some (.endDelev a0 signer rok) ∧ signer = r ∧
+        ∃ (wl : WState) (al : AcctV) (psl : List Mfi.Risk.Pos) (ml : Mfi.Risk.Comps), wl.accts[a0]? = some al ∧
+          (wl.rctx al rok signer true 0).portfolio = .ok psl ∧ Mfi.Risk.components psl .maint = .ok ml ∧
+          m0.assets - m0.liabs ≤ ml.assets - ml.liabs := by
+  obtain ⟨a, ps0, cache, ha, hadm, hgrp, hps0, hcache, signer, rok, hlast, hsig, wl, al, psl, seized, repaid, hal, hpsl, hend⟩ :=
+    tx_deleverage_closed h h0 hs
+  obtain ⟨m0, e0, hm0, _, ecache⟩ := start_deleverage_snapshot hcache
+  obtain ⟨ml, hml, hworse⟩ := end_deleverage_spec hend
+  subst ecache
+  exact ⟨a, ps0, m0, ha, hadm, hgrp, hps0, hm0, signer, rok, hlast, hsig, wl, al, psl, ml, hal, hpsl, hml, hworse⟩
 
 end whole_instructions
 
